@@ -178,11 +178,11 @@ theorem obj_mem (σ : FnM.St) (a : Nat) (o : FnM.Obj) (h : σ.obj? a = some o) :
   exact List.mem_of_getElem? h
 
 theorem visible_of_check (σ : FnM.St) (x : String)
-    (h : (σ.heap.all fun o => !hidden o.val x && !isStr o.val) = true) : Visible σ x := by
+    (h : (σ.heap.all fun o => !hidden o.val x && !isStr o.val && (Fn.lookupA x o.accs).isNone) = true) : Visible σ x := by
   intro a o ho
   have := List.all_eq_true.1 h o (obj_mem σ a o ho)
-  simp only [Bool.and_eq_true, Bool.not_eq_eq_eq_not, Bool.not_true] at this
-  refine ⟨this.1, ?_⟩
+  simp only [Bool.and_eq_true, Bool.not_eq_eq_eq_not, Bool.not_true, Option.isNone_iff_eq_none] at this
+  refine ⟨this.1.1, ?_, this.2⟩
   intro s hs
   rw [hs] at this
   simp [isStr] at this
